@@ -517,4 +517,20 @@ def run_requests(reqs: list[dict[str, Any]], n_workers: int = 14) -> list[dict[s
     return out
 
 
+def run_requests_fresh(reqs: list[dict[str, Any]], n_workers: int = 14) -> list[dict[str, Any]]:
+    """like run_requests, but every request gets an interpreter of its own (no state shared between requests)"""
+    from concurrent.futures import ThreadPoolExecutor
+
+    def one(q: dict[str, Any]) -> dict[str, Any]:
+        w = Worker(int(q.get("hash_seed", 0)))
+        try:
+            w.send(q)
+            return w.recv()
+        finally:
+            w.close()
+
+    with ThreadPoolExecutor(max_workers=n_workers) as ex:
+        return list(ex.map(one, reqs))
+
+
 PLACEHOLDERS = re.compile(r"\|\|\||DUMMY|LOOP_\d|START\b|^\s*:LOOP", re.M)
